@@ -58,6 +58,9 @@ class TableAction(BoboAction):
             time.sleep(d)
         return self.table[event.event_id]
 
+    def __bool__(self):        # an action object Python counts as false is still an action
+        return False
+
 
 class GatedAction(BoboAction):
     """blocks until the harness opens the gate of the event it was given"""
@@ -142,6 +145,53 @@ def multi_cases(res, lines, impl_out, maxn, only=None):
                     res.violations.append(Violation('multi-success', f"outcomes {bits}, stop_on_fail={stop}: success={success}, expected {exp_s}", case))
                 lines.append(f"multi {int(stop)} {''.join(map(str, bits))}")
                 impl_out.append(f"{1 if success else 0} " + (','.join(f"{1 if s else 0}:{d}" for s, d in data) or '-'))
+
+
+def multi_grown_cases(res):
+    """the list handed to the constructor is changed by its owner AFTERWARDS (a sub-action registered late, one retired),
+    then the multi-action runs.  Whether the multi-action follows the list or keeps its own copy is its business; what it
+    reports must follow from what it executed: data = the results of the executed sub-actions in order, success = all of
+    their flags."""
+    ev = cev('mg')
+    for n in (1, 2, 3):
+        for bits in itertools.product((1, 0), repeat=n):
+            for stop in (True, False):
+                for change in ('append-ok', 'append-fail', 'pop', 'insert-ok', 'clear-refill'):
+                    if change == 'pop' and n < 2:
+                        continue
+                    log = []
+                    mk = lambda i, b: SubAction(i, (lambda e, b=b, i=i: (bool(b), i)), log)     # noqa
+                    subs = [mk(i, b) for i, b in enumerate(bits)]
+                    m = BoboActionMultiSequential('mg', subs, stop)
+                    if change == 'append-ok':
+                        subs.append(mk(n, 1))
+                    elif change == 'append-fail':
+                        subs.append(mk(n, 0))
+                    elif change == 'pop':
+                        subs.pop()
+                    elif change == 'insert-ok':
+                        subs.insert(0, mk(n, 1))
+                    else:
+                        keep = list(subs)
+                        subs.clear()
+                        subs.extend(keep)
+                    case = {'kind': 'multi-grown', 'stop': stop, 'outcomes': list(bits), 'change': change}
+                    res.add_case(case, nontrivial=True)
+                    res.count('multi_grown')
+                    try:
+                        success, data = m.execute(ev)
+                    except Exception as e:   # noqa
+                        res.violations.append(Violation('multi-raised', f"{case}: execute raised {type(e).__name__}", case))
+                        continue
+                    outs = {i: (bool(b), i) for i, b in enumerate(bits)}
+                    outs[n] = (change != 'append-fail', n)
+                    exp_d = [outs[i] for i in log]
+                    if list(data) != exp_d:
+                        res.violations.append(Violation('multi-data', f"{case}: reported {data}, the executed sub-actions {log} returned {exp_d}", case))
+                    elif success is not all(o[0] for o in exp_d):
+                        res.violations.append(Violation('multi-success', f"{case}: executed {log}, results {exp_d}, reported success={success}", case))
+                    elif stop and any(not o[0] for o in exp_d[:-1]):
+                        res.violations.append(Violation('multi-executed-set', f"{case}: went on after a failed sub-action although stop_on_fail", case))
 
 
 class CountingSub(BoboAction):
@@ -671,7 +721,7 @@ def forwarder_cases(res, rng, lines, impl_out, count, tag0):
         lines.append('fnew')
         impl_out.append('ok')
         for i in range(nph):
-            lines.append(f"fph {phs[i]} {actions[i].name if actions[i] else '-'}")
+            lines.append(f"fph {phs[i]} {actions[i].name if actions[i] is not None else '-'}")
             impl_out.append('ok')
         todo = list(evs)
         script = []
@@ -782,6 +832,8 @@ def run(ctx: Ctx) -> Result:
     only = ctx.replay['replay'] if ctx.replay is not None else None
     if only is not None and only.get('kind') == 'multi':
         multi_cases(res, lines, impl_out, 6, only)
+    elif only is not None and only.get('kind') == 'multi-grown':
+        multi_grown_cases(res)
     elif only is not None and only.get('kind') == 'multi-shared':
         multi_shared_cases(res, rng, None, only)
     elif only is not None and only.get('kind') == 'blocking-two-submitters':
@@ -793,6 +845,7 @@ def run(ctx: Ctx) -> Result:
                 pool_free_running(res, rng, lambda p: BoboActionHandlerMultiprocessing(processes=p), 'multiprocessing',
                                   procs, rng.randint(1, 10 if T else 6), 900 + 10 * procs + k, same_object=False)
         multi_cases(res, lines, impl_out, 6)
+        multi_grown_cases(res)
         multi_nested_cases(res, rng, 20000 if T else 600)
         multi_shared_cases(res, rng, None if T else 60)
         blocking_two_submitters(res)
